@@ -242,7 +242,88 @@ func c16FindColor(c *Ctx, p *Prog) {
 	c.Check(strict && first, "C16-R3", "FindColor:strict-improvement", p.pos(fn.Pos()), fmt.Sprintf("update on strictly smaller distance: %v; first element accepted through the match == ColorDefault escape: %v; conditions %v", strict, first, sortedKeys(at)))
 }
 
+// c16Palette: PaletteColor(i) is Color(i)|ColorValid for every index of the palette; a range
+// guard, if any, must let 0..255 through.
+func c16Palette(c *Ctx, p *Prog) {
+	fn := p.Fn("tcell:PaletteColor")
+	if fn == nil {
+		c.Undecided("C16-R4", "PaletteColor", "-", "not found")
+		return
+	}
+	bad := ""
+	okExpr := false
+	for _, r := range returnsOf(fn) {
+		if len(r.Results) != 1 {
+			continue
+		}
+		v := resultOf(r, 0)
+		if bo, ok := v.(*ssa.BinOp); ok && bo.Op == token.OR {
+			okExpr = true
+			continue
+		}
+		if _, ok := v.(*ssa.Const); ok {
+			// a refusal: only for indices outside 0..255
+			lo, hi := int64(-1<<62), int64(1<<62)
+			outside := false
+			for _, g := range rawGuardsAt(r.Block()) {
+				bo, ok := g.Cond.(*ssa.BinOp)
+				if !ok || bo.X != ssa.Value(fn.Params[0]) {
+					continue
+				}
+				k, ok := constInt(bo.Y)
+				if !ok {
+					continue
+				}
+				op := bo.Op
+				if !g.Positive {
+					switch op {
+					case token.LSS:
+						op = token.GEQ
+					case token.LEQ:
+						op = token.GTR
+					case token.GTR:
+						op = token.LEQ
+					case token.GEQ:
+						op = token.LSS
+					}
+				}
+				switch op {
+				case token.LSS:
+					if k <= 0 {
+						outside = true
+					}
+					if k-1 < hi {
+						hi = k - 1
+					}
+				case token.LEQ:
+					if k < 0 {
+						outside = true
+					}
+				case token.GTR:
+					if k >= 255 {
+						outside = true
+					}
+				case token.GEQ:
+					if k >= 256 {
+						outside = true
+					}
+					if k > lo {
+						lo = k
+					}
+				}
+			}
+			if !outside {
+				bad += fmt.Sprintf("refuses indices at %s under guards that admit part of 0..255; ", p.pos(r.Pos()))
+			}
+			continue
+		}
+		bad += "returns " + valName(v) + "; "
+	}
+	c.Check(okExpr && bad == "", "C16-R4", "PaletteColor:all-256-indices", p.pos(fn.Pos()), "PaletteColor(i) = Color(i)|ColorValid for every i in 0..255 "+bad)
+}
+
 func c16Gates(c *Ctx, p *Prog) {
+	c16Palette(c, p)
 	def := pkgConst(p, "ColorDefault")
 	get := func(name string) *ssa.Function {
 		named := p.namedType(p.Tcell, "Color")
